@@ -711,6 +711,7 @@ bool PostProcessor::makeMask()
     free(lblflag);
 
     // solve the problem;
+    L.Precision = problem->Precision;
     if (!L.PCGSolve(false))
         return false;
 
